@@ -15,9 +15,6 @@ def generate(seed, tier='quick', index=0):
     import random
     if random.Random(seed ^ 0x5EED).random() < 0.25:
         t['encoder'] = 'fast'
-        # without connection choices: with them the unchanged fast encoder is history dependent in many ways (the
-        # exclusion set filled by infeasible connection scenarios; known finding C05-known-3, DESIGN.md 9.3)
-        t['spec'].pop('conn', None)
     return t
 
 
